@@ -46,10 +46,10 @@ def sessions(rng, quick):
     maxlen = 3 if quick else 4
     for n in range(1, maxlen + 1):
         for combo in itertools.product(atoms, repeat=n):
-            if n == maxlen and rng.random() > (0.25 if quick else 0.15):
+            if n == maxlen and rng.random() > (0.25 if quick else 0.3):
                 continue
             out.append((disk0, list(combo)))
-    for _ in range(60 if quick else 1500):
+    for _ in range(60 if quick else 5000):
         n = rng.randrange(4, 8)
         out.append((disk0, [rng.choice(atoms) for _ in range(n)]))
     # close / reopen histories: a document is edited k times, closed, opened again (its version counter restarts at 1) and
